@@ -155,12 +155,13 @@ def getStatus (h : Hash) : List Vol → Nat → Nat
     | some f => if f.good then 200 else getStatus h vs 500
     | none => getStatus h vs acc
 
-def trashAll (c : Cfg) (now : Time) (h : Hash) (vs : List Vol) : List Vol × Nat :=
-  vs.foldr (fun v (acc : List Vol × Nat) =>
-    if v.ro then (v :: acc.1, acc.2) else
-    match Vol.trashBlock c now v h with
-    | (.kept, v') | (.trashed, v') => (v' :: acc.1, acc.2 + 1)
-    | (_, v') => (v' :: acc.1, acc.2)) ([], 0)
+/-- handleDELETE on one mount: Trash on every writable volume -/
+def delVol (c : Cfg) (now : Time) (h : Hash) (v : Vol) : Vol :=
+  if v.ro then v else (Vol.trashBlock c now v h).2
+
+/-- Trash returned nil (trashed, or kept because younger than the TTL): counted in copies_deleted -/
+def delHit (c : Cfg) (now : Time) (h : Hash) (v : Vol) : Bool :=
+  !v.ro && (match (Vol.trashBlock c now v h).1 with | .kept | .trashed => true | _ => false)
 
 /-- which mounts a trash-list item addresses -/
 def tiSelected (mount : Option Nat) (v : Vol) : Bool :=
@@ -173,12 +174,12 @@ def tiVol (c : Cfg) (now : Time) (h : Hash) (req : Time) (mount : Option Nat) (v
     | none => v
   else v
 
-def untrashAll (h : Hash) (vs : List Vol) : List Vol × Nat :=
-  vs.foldr (fun v (acc : List Vol × Nat) =>
-    if v.ro then (v :: acc.1, acc.2) else
-    match v.untrash h with
-    | some v' => (v' :: acc.1, acc.2 + 1)
-    | none => (v :: acc.1, acc.2)) ([], 0)
+/-- handleUntrash on one mount -/
+def untrashVol (h : Hash) (v : Vol) : Vol := if v.ro then v else (v.untrash h).getD v
+
+def untrashHit (h : Hash) (v : Vol) : Bool := !v.ro && (v.untrash h).isSome
+
+def sweepVol (c : Cfg) (now : Time) (v : Vol) : Vol := if v.ro then v else v.emptyTrash c now
 
 def step (c : Cfg) (s : St) : Op → St × Res
   | .put h goodBody =>
@@ -200,17 +201,17 @@ def step (c : Cfg) (s : St) : Op → St × Res
   | .get h => (s, .code (getStatus h s.vols 404))
   | .delete h =>
     if !c.blobTrash then (s, .code 405) else
-    let (vs, n) := trashAll c s.now h s.vols
-    if n = 0 then (s, .code 404) else ({ s with vols := vs }, .deleted n 0)
+    let n := (s.vols.filter (delHit c s.now h)).length
+    if n = 0 then (s, .code 404) else ({ s with vols := s.vols.map (delVol c s.now h) }, .deleted n 0)
   | .trashItem h req mount =>
     if young c s.now req then (s, .quiet)
     else ({ s with vols := s.vols.map (tiVol c s.now h req mount) }, .quiet)
   | .untrash h =>
     if (writables s.vols).isEmpty then (s, .code 404) else
-    let (vs, n) := untrashAll h s.vols
-    if n = 0 then (s, .code 404) else ({ s with vols := vs }, .code 200)
+    if (s.vols.filter (untrashHit h)).isEmpty then (s, .code 404)
+    else ({ s with vols := s.vols.map (untrashVol h) }, .code 200)
   | .emptyTrash =>
-    ({ s with vols := s.vols.map (fun v => if v.ro then v else v.emptyTrash c s.now) }, .quiet)
+    ({ s with vols := s.vols.map (sweepVol c s.now) }, .quiet)
   | .tick d => ({ s with now := s.now + d }, .quiet)
   | .unauth kind => (s, .code (if kind = 0 then 403 else 401))
 
